@@ -285,30 +285,40 @@ class Run(object):
                                 "serialization_failure does not describe message nid=%s: %r" % (nid, text))
         if not isinstance(tb.get("traceback"), str) or not isinstance(tb.get("reason"), str):
             raise Violation(("failure_reports", {"what": what}), "traceback message malformed: %r" % (tb,))
-        # placement: in the context current when the message was written
-        ctx = cur
+        # placement: in the context current when the message was written.  For an end message written by
+        # __exit__ that is the enclosing context or the ending action itself: which of the two is current
+        # while a block is being left is not stated anywhere (C04 speaks of inside and of afterwards).
+        ctxs = [cur]
         if what == "end":
-            ctx = self.stack[-2] if len(self.stack) >= 2 else None
+            ctxs = [self.stack[-2] if len(self.stack) >= 2 else None, self.stack[-1] if self.stack else None]
         self.contained += 1
+        problem = None
+        for ctx in ctxs:
+            problem = self._placement_problem(ctx, tb, sf, what, nid)
+            if problem is None:
+                break
+        if problem is not None:
+            raise Violation(("report_placement", {"what": what}), problem)
+        return result, None
+
+    def _placement_problem(self, ctx, tb, sf, what, nid):
         if ctx is None:
             for r in (tb, sf):
                 if r["task_level"] != [1]:
-                    raise Violation(("report_placement", {"what": what}),
-                                    "no current action, but report logged at %s" % r["task_level"])
+                    return "no current action, but report logged at %s" % r["task_level"]
             if tb["task_uuid"] == sf["task_uuid"]:
-                raise Violation(("report_placement", {"what": what}), "two context-less reports share a task_uuid")
+                return "two context-less reports share a task_uuid"
         elif ctx.get("prefix") is None:
             self.unverifiable += 1
         else:
             u, pre = ctx["prefix"]
             for r in (tb, sf):
                 if r["task_uuid"] != u or r["task_level"][:-1] != pre:
-                    raise Violation(("report_placement", {"what": what}),
-                                    "%s nid=%s failed inside action %s %s, report logged at %s %s" % (
-                                        what, nid, u, pre, r["task_uuid"], r["task_level"]))
+                    return "%s nid=%s failed inside action %s %s, report logged at %s %s" % (
+                        what, nid, u, pre, r["task_uuid"], r["task_level"])
             if sf["task_level"] == tb["task_level"]:
-                raise Violation(("report_placement", {"what": what}), "both reports at the same position")
-        return result, None
+                return "both reports at the same position"
+        return None
 
     def is_mine(self, m, nid, what):
         if what == "end":
@@ -487,7 +497,12 @@ def run_threads(rc, cfg, types, dec):
             m = [x for x in msgs if x.get("nid") == nid and x.get("message_type", "").startswith("t:")][0]
             tname, f = logged[nid]
             for k, sname in run[0].decl[(tname, "msg")]:
-                want = SER[sname](f[k])
+                try:
+                    want = SER[sname](f[k])
+                except Exception:  # noqa
+                    raise Violation(("delivered_despite_failure", {"what": "msg"}),
+                                    "nid=%s was delivered although the serializer of field %r cannot accept the "
+                                    "logged value %r" % (nid, k, f[k]))
                 if m.get(k) != want or type(m.get(k)) is not type(want):
                     raise Violation(("wrong_serialization", {"what": "msg", "concurrent": True}),
                                     "message nid=%s logged from several threads at once: field %r delivered as %r, "
